@@ -16,12 +16,14 @@ the per-box cell literals b<i>_<cell>, are enumerated with blocking clauses.  Re
 lists and models are pulled back to the lattice and judged by TLC (RectSearchTrace): missing / spurious models,
 sat iff feasible, returned rectangles = boxes of an admitted shape meeting the bound.
 
-Growth (thorough tier, evidence key coverage.from_allocation, no further property claim): the front end of the rect
+Growth (a slice in quick, the full universe in thorough; evidence key coverage.from_allocation, no further property claim): the front end of the rect
 stage.  RectSearch's "alloc" mode (FromAllocation / LoadAllocation, invariants FrontEndOK and EndToEndExact) is
 model-checked and emits (allocation, module, k) records; each becomes an Allocation YAML document plus a netlist YAML
 document (or none: get_netlist derives one) that go through rect_io.get_alloc / get_netlist / select_box, and the
 improvement loop of rect.main() (`dif = last`, `while last[0] > 0 and q1 > quality`) re-implemented around the real
-rect.solve.  TLC judges the InputProblem select_box produced (same cells, occupancy = ratio, disjoint) and the
+rect.solve.  The documents have two or three modules and OVER-occupied cells (sum of the ratios of a cell > 1); the
+document written is parsed back independently of FRAME and TLC judges against the ratios AS WRITTEN.  TLC judges the
+InputProblem select_box produced (same cells, occupancy = ratio, disjoint) and the
 end-to-end contract (a module allocated with ratio 1 exactly on a k-STOG gets exactly that shape, zero error).
 
 A seeded random driver adds larger / irregular grids (to 4x3 in quick, 5x4 in thorough; random spacing, origin,
@@ -287,6 +289,19 @@ def run_alloc_case(case):
     af = os.path.join(d, "alloc.yaml")
     with open(af, "w") as f:
         f.write("\n".join(lines) + "\n")
+    # the allocation AS WRITTEN: the document is parsed back independently of FRAME (plain YAML), pulled back to the
+    # lattice, and THAT is what TLC judges the front end and the end-to-end contract against
+    from ruamel.yaml import YAML        # plain YAML loader (no FRAME code involved)
+    written = []
+    for rect, occ in YAML(typ="safe").load(open(af).read()):
+        r = emb.back_rect(*[float(v) for v in rect])
+        rat = []
+        for m in range(len(case["alloc"][0][6])):
+            v = occ.get(f"M{m + 1}")
+            rat.append(-1 if v is None else int(round(float(v) * den)))
+        written.append(r + [0, 0, rat])
+    if written != [list(c[:6]) + [list(c[6])] for c in case["alloc"]]:
+        raise RuntimeError(f"harness: the document written does not read back as the case: {written[:2]} vs {case['alloc'][:2]}")
     nf = None
     if case["netlist"] == "file":
         nf = os.path.join(d, "netlist.yaml")
@@ -297,7 +312,7 @@ def run_alloc_case(case):
             mods.append("  %s: {area: %r, center: [%r, %r]}" % (name, max(a, float(emb.area(1)) / 4), float(ctr[0]), float(ctr[1])))
         with open(nf, "w") as f:
             f.write("Modules: {\n" + ",\n".join(mods) + "\n}\nNets: []\n")
-    obs = {"events": [], "complete": 0}
+    obs = {"events": [], "complete": 0, "alloc_written": written}
     st, fe = _fresh_child(_front_end, {"alloc_file": af, "net_file": nf}, 300)
     if st == "harness_error":
         # an exception inside get_alloc / get_netlist on a valid allocation document is an observation, not a harness bug
@@ -326,14 +341,57 @@ def run_alloc_case(case):
     return obs
 
 
-def alloc_cases(gen: list[dict], rng: random.Random) -> list[dict]:
+def random_alloc_cases(rng: random.Random, n: int) -> list[dict]:
+    """Allocation documents TLC does not enumerate: ratios in tenths, three modules, OVER-occupied cells (0.7 + 0.6,
+    1.0 + 1.0, ... : the sum of the ratios of a cell may exceed 1, Allocation deliberately does not assert it), the
+    module to normalise allocated with ratio 1 exactly on a k-STOG built here (trunk + abutting branches)."""
+    cases = []
+    while len(cases) < n:
+        nx, ny = rng.choice([(2, 2), (3, 2), (2, 3), (3, 3), (4, 2)])
+        xs, ys = [rng.randint(0, 4)], [rng.randint(0, 4)]
+        for _ in range(nx):
+            xs.append(xs[-1] + rng.choice([1, 1, 2]))
+        for _ in range(ny):
+            ys.append(ys[-1] + rng.choice([1, 1, 2]))
+        box = lambda: (lambda i, j, a, b: (xs[i], ys[j], xs[a], ys[b]))(*(lambda i, j: (i, j, rng.randint(i + 1, nx), rng.randint(j + 1, ny)))(rng.randrange(nx), rng.randrange(ny)))
+        trunk = box()
+        shape = [trunk]
+        for _ in range(rng.randint(0, 2)):
+            for _try in range(30):
+                b = box()
+                ab = ((b[0] == trunk[2] or b[2] == trunk[0]) and trunk[1] <= b[1] and b[3] <= trunk[3]) or \
+                     ((b[1] == trunk[3] or b[3] == trunk[1]) and trunk[0] <= b[0] and b[2] <= trunk[2])
+                if ab and all(b[2] <= c[0] or c[2] <= b[0] or b[3] <= c[1] or c[3] <= b[1] for c in shape):
+                    shape.append(b)
+                    break
+        alloc, over = [], 0
+        for j in range(ny):
+            for i in range(nx):
+                c = (xs[i], ys[j], xs[i + 1], ys[j + 1])
+                hot = any(b[0] <= c[0] and c[2] <= b[2] and b[1] <= c[1] and c[3] <= b[3] for b in shape)
+                rat = [10 if hot else rng.choice([-1, 0]), rng.choice([-1, 3, 6, 7, 10]), rng.choice([-1, -1, 5, 10])]
+                over += int(sum(v for v in rat if v > 0) > 10)
+                alloc.append(list(c) + [0, 0, rat])
+        if not over:
+            continue
+        netlist = rng.choice(["file", "derived"])
+        if netlist == "derived":
+            alloc = [c[:6] + [[-1 if v == 0 else v for v in c[6]]] for c in alloc]
+        cases.append({"kind": "alloc", "alloc": alloc, "mod": 1, "k": len(shape), "den": 10,
+                      "cells": [c[:4] + [max(c[6][0], 0)] for c in alloc], "emb": rng.choice(ALL), "path": "select_box",
+                      "plan": ["alloc", 1], "netlist": netlist, "stog": 1, "over_occupied_cells": over,
+                      "proc": rng.choice(["fresh", "same"])})
+    return cases
+
+
+def alloc_cases(gen: list[dict], rng: random.Random, n_yes: int = 700, n_no: int = 150) -> list[dict]:
     """(allocation, module, k) records emitted by RectSearch in "alloc" mode -> document pairs for the real front end:
     every record whose module region is a k-STOG (the end-to-end contract applies), a seeded sample of the others."""
     recs = [g for g in gen if g["kind"] == "alloc"]
     yes = [g for g in recs if g["stog"] == 1]
     no = [g for g in recs if g["stog"] == 0]
-    yes = rng.sample(yes, min(len(yes), 700))
-    no = rng.sample(no, min(len(no), 150))
+    yes = rng.sample(yes, min(len(yes), n_yes))
+    no = rng.sample(no, min(len(no), n_no))
     cases = []
     for i, g in enumerate(yes + no):
         netlist = "file" if i % 2 == 0 else "derived"
@@ -559,7 +617,7 @@ def decide(ctx: Ctx, cases: list[dict]):
              "wsel": obs["wsel"], "wreal": obs["wreal"], "events": evs,
              # front end (kind "alloc"): the allocation, the module, the InputProblem select_box produced, and whether
              # the improvement loop ran to its end (last call unsat)
-             "proc": c.get("proc", "fresh"), "kind": "alloc" if c["kind"] == "alloc" else "plain", "alloc": c.get("alloc", []), "mod": c.get("mod", 0),
+             "proc": c.get("proc", "fresh"), "kind": "alloc" if c["kind"] == "alloc" else "plain", "alloc": obs.get("alloc_written", []), "mod": c.get("mod", 0),
              "inp": obs.get("inp", []), "complete": obs.get("complete", 0),
              "found": int(c["kind"] != "alloc" or (f"M{c.get('mod')}" in obs.get("names", []) and obs.get("flags") == [0, 0]))}
         key = digest(t)
@@ -616,6 +674,8 @@ def decide(ctx: Ctx, cases: list[dict]):
             "front_end_clauses_judged": len(al),
             "end_to_end_contract_applied": sum(1 for k, t in al if own(k).get("stog") == 1 and t["complete"] == 1),
             "module_region_not_a_kstog": sum(1 for k, _ in al if own(k).get("stog") == 0),
+            "documents_with_over_occupied_cells": sum(
+                1 for _, t in al if any(sum(v for v in c[6] if v > 0) > t["den"] for c in t["alloc"])),
             "embeddings": sorted({own(k)["emb"] for k, _ in al}),
             "grids": sorted({f"{len(t['xs']) - 1}x{len(t['ys']) - 1}" for _, t in al}),
         }
@@ -648,7 +708,7 @@ def run(ctx: Ctx) -> int:
         decide(ctx, [c])
         return ctx.finish("model_checking", "replay of one recorded case")
     tier = ctx.tier
-    _model_check(ctx, f"RectSearch_mc_{tier}", ignore=("EmitGrid", "EmitSolve", "EmitAlloc", "LoadAllocation"))
+    _model_check(ctx, f"RectSearch_mc_{tier}", ignore=("EmitGrid", "EmitSolve", "EmitAlloc") + (() if tier == "quick" else ("LoadAllocation",)))
     if tier == "thorough":
         _model_check(ctx, "RectSearch_mc_k4", ignore=("EmitGrid", "EmitSolve", "EmitAlloc", "LoadAllocation", "Start", "Call", "Iterate", "Stop"))
     # negative run: the border exclusions as implemented today break EncSound at the design level
@@ -668,12 +728,15 @@ def run(ctx: Ctx) -> int:
     cases += random_cases(rng, 150 if tier == "quick" else 1000, tier)
     n_random = len(cases) - n_tlc
     probes = []
+    # growth: the front end of the rect stage (Allocation YAML + netlist YAML -> rect_io -> improvement loop); a slice of
+    # it in the quick tier, the full universe in thorough
     if tier == "thorough":
-        # growth: the front end of the rect stage (Allocation YAML + netlist YAML -> rect_io -> improvement loop)
         _model_check(ctx, "RectSearch_mc_alloc", ignore=("EmitGrid", "EmitSolve", "EmitAlloc", "ChooseTrunk", "AddBranch", "EncBox", "Close"))
-        ac = alloc_cases(gen, rng)
-        cases += ac
+        ac = alloc_cases(gen, rng) + random_alloc_cases(rng, 300)
         probes = [c for c in ac if c["netlist"] == "file" and c["stog"] == 1][:24]
+    else:
+        ac = alloc_cases(gen, rng, 48, 12) + random_alloc_cases(rng, 30)
+    cases += ac
     decide(ctx, cases)
     if probes:
         out = run_cases(zero_ratio_probe, probes, nproc=8)
